@@ -17,6 +17,16 @@ pub enum State {
     TestFinished,
     /// no debugger until the `shutdown` request has been answered; one connects before `exit`
     AttachesAfterShutdown,
+    /// the debug port is in use by someone else when the server starts: no debugger can ever attach
+    PortTaken,
+    /// stopped at a breakpoint, after requests a client may well send but the adapter may not expect (completions with the
+    /// cursor at the end of the text, variables of an unknown reference, a breakpoint on line 0 / in a source without a
+    /// path)
+    AfterOddRequests,
+    /// stopped at a call of a subroutine that never returns, and the client has asked to step over it
+    SteppingOverEndlessCall,
+    /// a launch request in a project without mos.toml
+    LaunchWithoutConfig,
 }
 
 #[derive(Clone, Copy, Debug, Hash, PartialEq, Eq, Serialize, Deserialize)]
@@ -27,7 +37,21 @@ pub enum Order {
     CloseStdin,
 }
 
-pub const STATES: [State; 6] = [State::NoDebugger, State::ConnectedIdle, State::StoppedAtBreakpoint, State::Running, State::TestFinished, State::AttachesAfterShutdown];
+pub const STATES: [State; 10] = [
+    State::NoDebugger,
+    State::ConnectedIdle,
+    State::StoppedAtBreakpoint,
+    State::Running,
+    State::TestFinished,
+    State::AttachesAfterShutdown,
+    State::PortTaken,
+    State::AfterOddRequests,
+    State::SteppingOverEndlessCall,
+    State::LaunchWithoutConfig,
+];
+
+/// line 3 is a call of a subroutine that waits for something that never happens in the test runner
+pub const SPIN_TEST: &str = ".test \"spin\" {\n    lda #1\n    jsr waitq\n    nop\n    brk\n}\nwaitq: {\n    lda $d012\n    cmp #$ff\n    bne waitq\n    rts\n}\n";
 pub const ORDERS: [Order; 4] = [Order::ShutdownExit, Order::DisconnectShutdownExit, Order::ShutdownDisconnectExit, Order::CloseStdin];
 
 #[derive(Clone, Debug, Hash, PartialEq, Eq, Serialize, Deserialize)]
@@ -67,21 +91,34 @@ pub fn prop(c: &Case, log: &mut CaseLog) -> Verdict {
     log.label(format!("order:{:?}", c.order));
     log.nontrivial = true;
     let sc = Scratch::new("c20");
-    sc.write("mos.toml", b"[build]\nentry = \"main.asm\"\n");
-    sc.write("main.asm", LONG_TEST.as_bytes());
-    let mut lsp = match LspClient::start(&sc.dir) {
+    if c.state != State::LaunchWithoutConfig {
+        sc.write("mos.toml", b"[build]\nentry = \"main.asm\"\n");
+    }
+    let source = if c.state == State::SteppingOverEndlessCall { SPIN_TEST } else { LONG_TEST };
+    sc.write("main.asm", source.as_bytes());
+    // (for PortTaken: somebody else listens on the port the server is told to use)
+    let mut squatter: Option<std::net::TcpListener> = None;
+    let started = if c.state == State::PortTaken {
+        let l = std::net::TcpListener::bind(("127.0.0.1", 0)).expect("bind");
+        let port = l.local_addr().unwrap().port();
+        squatter = Some(l);
+        LspClient::start_on_port(&sc.dir, port)
+    } else {
+        LspClient::start(&sc.dir)
+    };
+    let mut lsp = match started {
         Ok(l) => l,
         Err(e) => return Verdict::fail("server-did-not-start", format!("{:?}", e)),
     };
     let port = lsp.port;
     let uri = crate::sut::lsp::file_uri(&sc.dir, "main.asm");
-    lsp.did_open(&uri, LONG_TEST);
+    lsp.did_open(&uri, source);
     // a request as barrier so that the analysis is done
     let _ = lsp.request("textDocument/documentSymbol", json!({"textDocument": {"uri": uri}}), Duration::from_secs(20));
     let t = Duration::from_secs(10);
     let mut dap: Option<DapClient> = None;
     let mut trace: Vec<String> = vec![];
-    if c.state != State::NoDebugger && c.state != State::AttachesAfterShutdown {
+    if c.state != State::NoDebugger && c.state != State::AttachesAfterShutdown && c.state != State::PortTaken {
         let mut d = match DapClient::connect(port, Duration::from_secs(10)) {
             Some(d) => d,
             None => return Verdict::fail("debug-port-not-listening", format!("port {}", port)),
@@ -89,10 +126,19 @@ pub fn prop(c: &Case, log: &mut CaseLog) -> Verdict {
         let r = d.request("initialize", json!({"adapterID": "mos", "linesStartAt1": true, "columnsStartAt1": true}), t);
         trace.push(format!("initialize: {:?}", r.is_ok()));
         if c.state != State::ConnectedIdle {
-            let test = if c.state == State::TestFinished { "short" } else { "long" };
-            let r = d.request("launch", json!({"workspace": sc.dir.to_string_lossy(), "testRunner": {"testCaseName": test}}), t);
+            let test = match c.state {
+                State::TestFinished => "short",
+                State::SteppingOverEndlessCall => "spin",
+                _ => "long",
+            };
+            let launch_timeout = if c.state == State::LaunchWithoutConfig { Duration::from_secs(3) } else { t };
+            let r = d.request("launch", json!({"workspace": sc.dir.to_string_lossy(), "testRunner": {"testCaseName": test}}), launch_timeout);
             trace.push(format!("launch: {:?}", r.as_ref().err()));
-            if c.state == State::StoppedAtBreakpoint {
+            if c.state == State::SteppingOverEndlessCall {
+                let r = d.request("setBreakpoints", json!({"source": {"path": sc.dir.join("main.asm").to_string_lossy()}, "breakpoints": [{"line": 3}]}), t);
+                trace.push(format!("setBreakpoints: {:?}", r.as_ref().map(|v| v["body"].clone())));
+            }
+            if c.state == State::StoppedAtBreakpoint || c.state == State::AfterOddRequests {
                 // the `nop` in the inner loop: line 9 of the file
                 let r = d.request("setBreakpoints", json!({"source": {"path": sc.dir.join("main.asm").to_string_lossy()}, "breakpoints": [{"line": 9}]}), t);
                 trace.push(format!("setBreakpoints: {:?}", r.as_ref().map(|v| v["body"].clone())));
@@ -100,11 +146,33 @@ pub fn prop(c: &Case, log: &mut CaseLog) -> Verdict {
             let r = d.request("configurationDone", Value::Null, t);
             trace.push(format!("configurationDone: {:?}", r.as_ref().err()));
             match c.state {
-                State::StoppedAtBreakpoint => {
+                State::LaunchWithoutConfig => {
+                    d.pump(Duration::from_millis(30));
+                }
+                State::StoppedAtBreakpoint | State::AfterOddRequests | State::SteppingOverEndlessCall => {
                     let e = d.wait_event("stopped", 0, t);
                     trace.push(format!("stopped event: {}", e.is_some()));
                     if e.is_none() {
                         return Verdict::fail("harness-state-not-reached|stopped", format!("{:?}\n{:?}", trace, d.log));
+                    }
+                    let short = Duration::from_millis(700);
+                    if c.state == State::AfterOddRequests {
+                        // whether and how these are answered is not the point: the session state they leave behind is
+                        let odd: Vec<(&str, Value)> = vec![
+                            ("completions", json!({"text": "cpu.", "column": 5})),
+                            ("completions", json!({"text": "\u{e9}", "column": 1})),
+                            ("variables", json!({"variablesReference": 4})),
+                            ("setBreakpoints", json!({"source": {"path": sc.dir.join("main.asm").to_string_lossy()}, "breakpoints": [{"line": 0}]})),
+                            ("setBreakpoints", json!({"source": {"name": "nowhere"}, "breakpoints": [{"line": 2}]})),
+                        ];
+                        // (one of them per case, chosen by the delay, so that a session that dies of one does not hide the others)
+                        let (m, a) = odd[(c.delay_ms as usize) % odd.len()].clone();
+                        let r = d.request(m, a, short);
+                        trace.push(format!("{}: {:?}", m, r.as_ref().map(|_| "answered")));
+                    }
+                    if c.state == State::SteppingOverEndlessCall {
+                        let r = d.request("next", json!({"threadId": 1}), short);
+                        trace.push(format!("next: {:?}", r.as_ref().map(|_| "answered")));
                     }
                 }
                 State::TestFinished => {
@@ -170,6 +238,7 @@ pub fn prop(c: &Case, log: &mut CaseLog) -> Verdict {
     let detail = |what: &str| format!("{}\nstate {:?}, order {:?}, delay {} ms\nsession: {:?}\nstderr: {}", what, c.state, c.order, c.delay_ms, trace, stderr);
     match status {
         Some((Some(0), _)) => {
+            drop(squatter.take());
             // the debug port must be free again
             if std::net::TcpListener::bind(("127.0.0.1", port)).is_err() {
                 return Verdict::fail("debug-port-still-bound-after-exit", detail("port not released"));
@@ -190,15 +259,35 @@ pub fn prop(c: &Case, log: &mut CaseLog) -> Verdict {
             if all_blocked {
                 Verdict::fail("process-never-exits|all-threads-blocked", detail(&format!("all {} threads sleeping without consuming CPU: {:?}", a.len(), b)))
             } else {
-                log.label("inconclusive");
-                Verdict::Pass
+                // Not blocked: is it doing something that will end? Give it another 15 s. A thread that has then been
+                // computing all the time (more than 10 s of CPU time, in clock ticks of 10 ms) while every other thread
+                // sleeps is not on its way out either.
+                let deadline = Instant::now() + Duration::from_secs(15);
+                while Instant::now() < deadline {
+                    if let Some(s) = lsp.try_wait() {
+                        log.label("slow-exit");
+                        log.label("inconclusive");
+                        let _ = s;
+                        return Verdict::Pass;
+                    }
+                    std::thread::sleep(Duration::from_millis(50));
+                }
+                let z = thread_sample(pid);
+                let spinning: Vec<_> = z.iter().filter(|t| a.iter().find(|x| x.0 == t.0).map(|x| t.2.saturating_sub(x.2) >= 1000).unwrap_or(false)).collect();
+                let others_sleep = z.iter().filter(|t| !spinning.iter().any(|s| s.0 == t.0)).all(|t| t.1 == 'S' && a.iter().find(|x| x.0 == t.0).map(|x| x.2 == t.2).unwrap_or(false));
+                if spinning.len() == 1 && others_sleep {
+                    Verdict::fail("process-never-exits|one-thread-computing-for-ever", detail(&format!("25 s after the end of the session one thread has been computing for {} ticks while the other {} sleep: {:?}", spinning[0].2, z.len() - 1, z)))
+                } else {
+                    log.label("inconclusive");
+                    Verdict::Pass
+                }
             }
         }
     }
 }
 
 pub fn run_check(ctx: &mut Ctx) {
-    ctx.rule = "enumerated: 6 session states (no debugger client; client connected and initialized; launched on the test runner and stopped at a breakpoint; launched and running a long test; short test finished; a debugger client that connects between `shutdown` and `exit`) x 4 orders (shutdown+exit; disconnect, shutdown, exit; shutdown, disconnect, exit; closing the client's end of the pipe without shutdown) x delay draws; oracle: exit status 0 within 10 s and the debug port bindable afterwards; a process that is still alive is a violation only with a deadlock witness (all threads sleeping, no CPU time consumed between two samples), otherwise inconclusive. every case is non-trivial".into();
+    ctx.rule = "enumerated: 10 session states (no debugger client; client connected and initialized; launched on the test runner and stopped at a breakpoint; launched and running a long test; short test finished; a debugger client that connects between `shutdown` and `exit`; the debug port taken by someone else at start-up; stopped at a breakpoint after an odd but legal debug request - completions at the end of the text, variables of an unknown reference, a breakpoint on line 0 or in a source without a path; stepping over a call that never returns; launch in a project without mos.toml) x 4 orders (shutdown+exit; disconnect, shutdown, exit; shutdown, disconnect, exit; closing the client's end of the pipe without shutdown) x delay draws; oracle: exit status 0 within 10 s and the debug port bindable afterwards; a process that is still alive is a violation only with a witness: a deadlock (all threads sleeping, no CPU time consumed between two samples) or, 25 s after the end of the session, exactly one thread that has been computing for more than 10 s while all others sleep; otherwise inconclusive. every case is non-trivial".into();
     if !have_mos() {
         ctx.health(false, "mos binary not built (MOS_BIN)");
         return;
